@@ -125,4 +125,119 @@ def unprotectedAt (t : Table) (i : Nat) (m : String) : Bool :=
   | some r => !isPublic r && !r.static && !r.prot && r.methods.contains m && !(m == "OPTIONS" && r.autoOptions)
   | none => false
 
+/-! ### wave 2 — the credential comparison as a parameter
+
+`token_required` compares the credentials word with the configured token by `token != self._bearer_token`.
+A realistic change replaces that by a helper (`hmac.compare_digest`, a hand-rolled "constant-time" loop,
+`startswith`, a case-insensitive test …).  The `…W` definitions below are `authOK`/`guarded`/`serveRoute`/
+`handle` with the comparison `cmp presented expected` as a parameter; `eqCmp` is string equality (the code
+as it is).  The comparison used for a run is `cmpOf obs`: string equality *patched by the observations*
+`obs` — triples (presented, expected, accepted?) obtained on every run from the real decorator. -/
+
+abbrev Cmp := List Char → List Char → Bool
+
+def eqCmp : Cmp := fun w τ => decide (w = τ)
+
+def authOKW (cmp : Cmp) (h : Option (List Char)) (τ : List Char) : Outcome :=
+  match h with
+  | none => .reject
+  | some hs =>
+    match word2 hs with
+    | none => .error
+    | some w => if cmp w τ then .accept else .reject
+
+def guardedW (cmp : Cmp) (V : View σ π) (tok : Option (List Char)) (s : σ) (r : Request π) : σ × Nat :=
+  match tok with
+  | none => V r.route r.payload s
+  | some τ =>
+    match authOKW cmp r.auth τ with
+    | .accept => V r.route r.payload s
+    | .reject => (s, 401)
+    | .error => (s, 500)
+
+def serveRouteW (cmp : Cmp) (V : View σ π) (t : Table) (tok : Option (List Char)) (s : σ) (r : Request π)
+    (rt : Route) : σ × Nat :=
+  if rt.static then (if t.staticFiles.contains r.file then V r.route r.payload s else (s, 404))
+  else if rt.prot then guardedW cmp V tok s r
+  else V r.route r.payload s
+
+def handleW (cmp : Cmp) (V : View σ π) (t : Table) (tok : Option (List Char)) (s : σ) (r : Request π) :
+    σ × Nat :=
+  match t.routes[r.route]? with
+  | none => (s, 404)
+  | some rt =>
+    if !rt.methods.contains r.method then (s, 405)
+    else if r.method == "OPTIONS" && rt.autoOptions then (s, 200)
+    else serveRouteW cmp V t tok s r rt
+
+/-- observations of the real comparison: (presented credentials word, configured token, accepted?) -/
+abbrev Obs := List (List Char × List Char × Bool)
+
+def obsLookup : Obs → List Char → List Char → Option Bool
+  | [], _, _ => none
+  | (p, e, v) :: rest, w, τ => if p = w ∧ e = τ then some v else obsLookup rest w τ
+
+/-- string equality, except where the real decorator was observed to decide otherwise -/
+def cmpOf (o : Obs) : Cmp := fun w τ => (obsLookup o w τ).getD (decide (w = τ))
+
+/-- the probed fact: every observed verdict is the verdict of string equality -/
+def compareIsEquality (o : Obs) : Bool := o.all (fun x => x.2.2 == decide (x.1 = x.2.1))
+
+/-- The seeded defect's comparison, for reference: XOR-accumulate over `zip(presented, expected)`, no
+length check. -/
+def zipCmp : Cmp
+  | [], _ => true
+  | _, [] => true
+  | a :: as, b :: bs => decide (a = b) && zipCmp as bs
+
+structure Cfg where
+  table : Table
+  obs : Obs
+
+/-- the observed comparison accepts `p` for the token `e` although they differ, `p` is a possible
+credentials word (no space), and rule `i` is a protected non-public application rule with method `m` -/
+def wrongAcceptAt (c : Cfg) (i : Nat) (m : String) (p e : List Char) : Bool :=
+  cmpOf c.obs p e && !decide (p = e) && !p.contains ' ' &&
+  (match c.table.routes[i]? with
+   | some r => !isPublic r && !r.static && r.prot && r.methods.contains m && !(m == "OPTIONS" && r.autoOptions)
+   | none => false)
+
+/-! ### wave 2 — from header lines to the header value the decorator sees
+
+The decorator reads `request.headers["Authorization"]`: the field name is matched case-insensitively and
+repeated header lines arrive as ONE value, joined by the gateway (`", "` by werkzeug's test client, `","`
+by werkzeug's WSGI server, which also drops leading blanks/tabs of each line's value). -/
+
+def lowerAscii (c : Char) : Char :=
+  if 65 ≤ c.toNat ∧ c.toNat ≤ 90 then Char.ofNat (c.toNat + 32) else c
+
+def isAuthName (n : List Char) : Bool := n.map lowerAscii == "authorization".toList
+
+def lstripWs : List Char → List Char
+  | [] => []
+  | c :: cs => if c = ' ' ∨ c = '\t' then lstripWs cs else c :: cs
+
+structure Transport where
+  sep : List Char
+  lstrip : Bool
+deriving Repr
+
+def testClient : Transport := { sep := [',', ' '], lstrip := false }
+def wsgiServer : Transport := { sep := [','], lstrip := true }
+
+def joinVals (sep : List Char) : List (List Char) → List Char
+  | [] => []
+  | [v] => v
+  | v :: vs => v ++ sep ++ joinVals sep vs
+
+def authValues (tr : Transport) (raw : List (List Char × List Char)) : List (List Char) :=
+  (raw.filter (fun nv => isAuthName nv.1)).map (fun nv => if tr.lstrip then lstripWs nv.2 else nv.2)
+
+/-- value of `request.headers["Authorization"]` for the header lines `raw` (name, value), `none` = the
+header is absent -/
+def headerValue (tr : Transport) (raw : List (List Char × List Char)) : Option (List Char) :=
+  match authValues tr raw with
+  | [] => none
+  | vs => some (joinVals tr.sep vs)
+
 end Bptk.C15
